@@ -20,6 +20,7 @@ RULE = ("12 predefined sizes x 20 residues (exhaustive) through single-residue a
 RULE += ("; added after the mutation rounds: integer-valued spellings of the size ('5', ' 12 ', 5.0, numpy int); returned alphabets emptied by the caller; user dictionaries with extra non-amino-acid keys; the first cases of every shard are judged again at its end")
 RULE += ("; round 5: extra keys with arbitrary values; an amino acid mapped onto an extra key (must be rejected)")
 RULE += ("; round 7: sequences of 1001-1600 residues in the reduction laws")
+RULE += ("; round 8: values with line breaks / blanks; dict subclasses that answer through __missing__ (accepted means applied by look-up)")
 EXHAUSTIVE = {"quick": False, "thorough": False}
 EXHAUSTIVE_NOTE = {"quick": "12 sizes x 20 residues enumerated completely; integer sizes 0..25",
                    "thorough": "12 sizes x 20 residues enumerated completely; integer sizes 0..25"}
